@@ -31,6 +31,9 @@ declare -A DEST=( [C01-a]=tests/seed_demo.rs [C03-a]=tests/seed_c03_demo.rs [C05
  [C08-d]=tests/c08_dvalue.rs [C10-d]=tests/c10d_demo.rs [C18-d]=tests/c18_demo.rs [C03-d]=tests/c03d_demo.rs [C11-d]=tests/c11_demo.rs
  [C02-d]=tests/seed_c02_demo.rs [C06-d]=tests/c06_demo.rs [C07-d]=tests/c07_demo.rs [C20-d]=tests/c20_demo.rs
  [C16-d]=crates/polytune-server-core/tests/c16_demo.rs
+ [C13-e]=crates/polytune-server-core/tests/seed_c13e_demo.rs [C14-e]=crates/polytune-server-core/tests/seed_c14e.rs
+ [C15-e]=crates/polytune-server-core/tests/c15_demo.rs [C17-e]=crates/polytune-server-core/tests/c17_demo.rs
+ [C01-e]=tests/c01e_demo.rs [C05-e]=tests/c05_demo.rs [C09-e]=tests/c09_demo.rs [C12-e]=tests/c12e_demo.rs
  [C20-a]=MOD:src/transpose/seed_demo.rs:src/transpose.rs:seed_demo )
 names=${@:-$(ls -d /verif/seeded/*/ | xargs -n1 basename)}
 for s in $names; do
